@@ -1,5 +1,6 @@
 //! Correspondence harness for engine `dsu` (property C05): drives rlib_dsu::DSU through its public API
-//! (`new`, `reset`, `par`, `un`, `check`, `size`, `clone`) on histories `n0 ; op ; op ; …`.
+//! (`new`, `reset`, `par`, `un`, `check`, `size`, `Clone::clone`, `Clone::clone_from`, `Debug`) on histories `n0 [flags] ; op ; op ; …`
+//! that work on two live structures (current / saved) and, with the flag `dk`, on three decoy structures in between.
 //! Case / token forms: see lean/Driver/Dsu.lean.  The parent forest is read WITHOUT hooks by parsing
 //! `format!("{:?}", dsu.clone())`.
 #[path = "../../common/mod.rs"]
@@ -308,8 +309,22 @@ fn log2_floor(x: usize) -> u32 {
 /// Debug text (depth is then not observable without hooks; the small-stack runs still check that lookups do not recurse
 /// deeply); the diagnostic text then says `depth=unknown`.
 fn dump_tok(d: &DSU, oc: &Oracle) -> (String, String, bool) {
-    let text = format!("{:?}", d.clone());
-    let (p, sz) = match parse_debug(&text) {
+    // the structure itself and a clone of it: when the two texts differ, both forests are measured
+    let text = format!("{:?}", d);
+    let text_clone = format!("{:?}", d.clone());
+    let first = dump_text(&text, oc);
+    if text_clone == text || first.2 {
+        return first;
+    }
+    let second = dump_text(&text_clone, oc);
+    if second.2 {
+        return (second.0, format!("{}(clone)", second.1), true);
+    }
+    first
+}
+
+fn dump_text(text: &str, oc: &Oracle) -> (String, String, bool) {
+    let (p, sz) = match parse_debug(text) {
         Some(x) => x,
         None => return ("depth=unknown".to_string(), "depth-ok".to_string(), false),
     };
@@ -398,6 +413,97 @@ struct State {
     os: Oracle,
 }
 
+/// Header flag `dk`: further structures of the same type that are alive on the same thread and are used between the
+/// operations of the history (own unions, lookups, resets, clones, `clone_from` among themselves, drops and re-creations).
+/// They share nothing with the structure under test, so the history's answers must be what they are without them, and the
+/// decoys' own answers are checked against their own independent oracles (`DECOY!` in the view otherwise).  Their element
+/// counts overlap the small vertex numbers of the history, so state keyed by a vertex number (a process-wide or
+/// thread-local cache, a shared scratch buffer) is hit from several objects.
+struct Decoys {
+    ds: Vec<(DSU, Oracle)>,
+    rng: SplitMix64,
+    bad: Option<String>,
+}
+
+impl Decoys {
+    fn new(n0: usize) -> Self {
+        let a = n0.clamp(1, 40);
+        let sizes = [a, a + 3, (a / 2).max(1)];
+        Decoys { ds: sizes.iter().map(|&k| (DSU::new(k), Oracle::new(k))).collect(), rng: SplitMix64::new(0xDEC0 ^ n0 as u64), bad: None }
+    }
+    fn fail(&mut self, what: &str) {
+        if self.bad.is_none() {
+            self.bad = Some(format!("DECOY!{}", what));
+        }
+    }
+    /// one pseudo-random operation on one decoy, checked against that decoy's oracle
+    fn poke(&mut self) {
+        let k = self.rng.below(self.ds.len() as u64) as usize;
+        let n = self.ds[k].1.n;
+        let what = self.rng.below(100);
+        if n == 0 || what < 4 {
+            let m = 1 + self.rng.below(44) as usize;
+            if self.rng.chance(1, 2) {
+                if catch(|| self.ds[k].0.reset(m)).is_err() {
+                    return self.fail("reset-panic");
+                }
+            } else {
+                self.ds[k].0 = DSU::new(m); // the old one is dropped here
+            }
+            self.ds[k].1 = Oracle::new(m);
+            return;
+        }
+        let (u, v) = (self.rng.below(n as u64) as usize, self.rng.below(n as u64) as usize);
+        if what < 50 {
+            match catch(|| self.ds[k].0.un(u, v)) {
+                Err(_) => self.fail("un-panic"),
+                Ok(b) => {
+                    if b != self.ds[k].1.union(u, v) {
+                        self.fail("un");
+                    }
+                }
+            }
+        } else if what < 62 {
+            match catch(|| self.ds[k].0.check(u, v)) {
+                Err(_) => self.fail("check-panic"),
+                Ok(b) => {
+                    if b != self.ds[k].1.conn(u, v) {
+                        self.fail("check");
+                    }
+                }
+            }
+        } else if what < 74 {
+            match catch(|| self.ds[k].0.size(u)) {
+                Err(_) => self.fail("size-panic"),
+                Ok(z) => {
+                    if z != self.ds[k].1.size(u) {
+                        self.fail("size");
+                    }
+                }
+            }
+        } else if what < 86 {
+            match catch(|| self.ds[k].0.par(u)) {
+                Err(_) => self.fail("par-panic"),
+                Ok(r) => {
+                    if !self.ds[k].1.rep(u, r) {
+                        self.fail("par");
+                    }
+                }
+            }
+        } else {
+            // copy decoy k over decoy j (clone / clone_from onto a used destination of another size)
+            let j = (k + 1 + self.rng.below(self.ds.len() as u64 - 1) as usize) % self.ds.len();
+            let src = self.ds[k].0.clone();
+            if what < 93 {
+                self.ds[j].0 = src;
+            } else if catch(|| self.ds[j].0.clone_from(&src)).is_err() {
+                return self.fail("clone_from-panic");
+            }
+            self.ds[j].1 = self.ds[k].1.clone();
+        }
+    }
+}
+
 enum Out {
     Tok(Tok),
     Stop(Tok),
@@ -478,6 +584,58 @@ fn do_op(st: &mut State, t: &[&str]) -> Out {
             st.n_saved = st.n_cur;
             st.os = st.oc.clone();
             Out::Tok(tok1("-"))
+        }
+        ("clonefrom", 1) => {
+            // `Clone::clone_from` onto whatever the saved structure is by now (fresh, used, shorter, longer)
+            match catch(|| st.saved.clone_from(&st.cur)) {
+                Err(e) => Out::Stop(tok1(&e)),
+                Ok(()) => {
+                    st.n_saved = st.n_cur;
+                    st.os = st.oc.clone();
+                    Out::Tok(tok1("-"))
+                }
+            }
+        }
+        ("restore", 1) => {
+            // roll the current structure back to the snapshot, re-using the current structure's allocations
+            match catch(|| st.cur.clone_from(&st.saved)) {
+                Err(e) => Out::Stop(tok1(&e)),
+                Ok(()) => {
+                    st.n_cur = st.n_saved;
+                    st.oc = st.os.clone();
+                    Out::Tok(tok1("-"))
+                }
+            }
+        }
+        ("feed", 2) => {
+            // values the API returned are fed back into it: r = par v; check v r; size r; par r; un r v
+            let v = need!(num(1));
+            if v >= n {
+                return Out::Stop(ood(&res_str(catch(|| st.cur.par(v)))));
+            }
+            macro_rules! call {
+                ($e:expr) => {
+                    match catch(|| $e) {
+                        Err(e) => return Out::Stop(tok1(&e)),
+                        Ok(x) => x,
+                    }
+                };
+            }
+            let r = call!(st.cur.par(v));
+            let ok1 = st.oc.rep(v, r);
+            if r >= n {
+                return Out::Stop(Tok { raw: r.to_string(), view: "R!".into() });
+            }
+            let b = call!(st.cur.check(v, r));
+            let k = call!(st.cur.size(r));
+            let rr = call!(st.cur.par(r));
+            let ok4 = st.oc.rep(r, rr);
+            let ub = call!(st.cur.un(r, v));
+            let rp = |o: bool| if o { "r" } else { "R!" };
+            Out::Tok(Tok {
+                raw: format!("{}/{}/{}/{}/{}", r, show_b(b), k, rr, show_b(ub)),
+                view: format!("{}/{}/{}/{}/{}", rp(ok1), show_b(b), k, rp(ok4), show_b(ub)),
+            })
         }
         ("swap", 1) => {
             std::mem::swap(&mut st.cur, &mut st.saved);
@@ -659,11 +817,21 @@ fn run_case(line: &str) -> String {
     };
     let saved = cur.clone();
     let mut st = State { cur, saved, n_cur: n0, n_saved: n0, oc: Oracle::new(n0), os: Oracle::new(n0) };
+    let mut decoys = if hdr.contains(&"dk") { Some(Decoys::new(n0)) } else { None };
     let mut raws: Vec<String> = Vec::new();
     let mut views: Vec<String> = Vec::new();
     for op in parts {
         if op.is_empty() {
             continue;
+        }
+        if let Some(dk) = decoys.as_mut() {
+            dk.poke();
+            dk.poke();
+            if let Some(b) = dk.bad.clone() {
+                raws.push("decoy".to_string());
+                views.push(b);
+                break;
+            }
         }
         let t: Vec<&str> = op.split_whitespace().collect();
         match do_op(&mut st, &t) {
@@ -725,7 +893,8 @@ fn track(n0: usize, ops: &[&str]) -> Option<(usize, usize)> {
                 }
             }
             "reset" => n = a(1),
-            "clone" => m = n,
+            "clone" | "clonefrom" => m = n,
+            "restore" => n = m,
             "swap" => std::mem::swap(&mut n, &mut m),
             _ => {}
         }
@@ -788,6 +957,8 @@ fn mixed_alphabet(n: usize) -> Vec<String> {
     a.push(format!("reset {}", n + 1));
     a.push("clone".into());
     a.push("swap".into());
+    a.push("clonefrom".into());
+    a.push("restore".into());
     a
 }
 
@@ -797,6 +968,11 @@ fn random_history(rng: &mut SplitMix64, st: &mut Stats, max_len: usize) -> Strin
     let mut n_saved = n0;
     let len = 1 + rng.below(max_len as u64) as usize;
     let mut line = n0.to_string();
+    // every third history runs with decoy structures alive and used between its operations
+    if rng.chance(1, 3) {
+        line.push_str(" dk");
+        st.bump("random_histories_with_decoys");
+    }
     // a history is either union-heavy (to build deep forests) or balanced
     let heavy = rng.chance(1, 2);
     for _ in 0..len {
@@ -841,6 +1017,17 @@ fn random_history(rng: &mut SplitMix64, st: &mut Stats, max_len: usize) -> Strin
             line.push_str(" ; swap");
             std::mem::swap(&mut n, &mut n_saved);
             st.bump("op_swap");
+        } else if r < un_share + 38 {
+            line.push_str(" ; clonefrom");
+            st.bump(clone_from_kind(n, n_saved));
+            n_saved = n;
+        } else if r < un_share + 39 {
+            line.push_str(" ; restore");
+            st.bump(clone_from_kind(n_saved, n));
+            n = n_saved;
+        } else if r < un_share + 40 {
+            line.push_str(&format!(" ; feed {}", u));
+            st.bump("op_feed");
         } else {
             line.push_str(" ; dump");
             st.bump("op_dump");
@@ -848,6 +1035,75 @@ fn random_history(rng: &mut SplitMix64, st: &mut Stats, max_len: usize) -> Strin
     }
     line.push_str(" ; dump");
     st.bump("random_histories");
+    line
+}
+
+fn clone_from_kind(src: usize, dst: usize) -> &'static str {
+    if dst < src {
+        "op_clone_from_onto_shorter"
+    } else if dst > src {
+        "op_clone_from_onto_longer"
+    } else {
+        "op_clone_from_onto_equal_length"
+    }
+}
+
+/// snapshot / roll-back histories: two live structures that are both worked on (unions, lookups, resets to other sizes) and
+/// are copied over each other with `clone`, `clonefrom` and `restore`; sizes of every element are read after each copy
+fn rollback_history(rng: &mut SplitMix64, st: &mut Stats) -> String {
+    let n0 = 2 + rng.below(11) as usize;
+    let (mut n, mut n_saved) = (n0, n0);
+    let mut line = n0.to_string();
+    if rng.chance(1, 4) {
+        line.push_str(" dk");
+    }
+    let bursts = 2 + rng.below(6);
+    for _ in 0..bursts {
+        // a burst of work on the current structure
+        for _ in 0..rng.below(8) {
+            if n == 0 {
+                break;
+            }
+            let (u, v) = (rng.below(n as u64), rng.below(n as u64));
+            match rng.below(10) {
+                0..=6 => line.push_str(&format!(" ; un {} {}", u, v)),
+                7 => line.push_str(&format!(" ; par {}", u)),
+                8 => line.push_str(&format!(" ; feed {}", u)),
+                _ => line.push_str(&format!(" ; check {} {}", u, v)),
+            }
+        }
+        // then something that involves the other structure
+        match rng.below(10) {
+            0 | 1 => {
+                line.push_str(" ; swap");
+                std::mem::swap(&mut n, &mut n_saved);
+                st.bump("op_swap");
+            }
+            2 => {
+                let m = 1 + rng.below(13) as usize;
+                line.push_str(&format!(" ; reset {}", m));
+                n = m;
+                st.bump("op_reset_rollback_stream");
+            }
+            3 | 4 => {
+                line.push_str(" ; clone");
+                n_saved = n;
+                st.bump("op_clone");
+            }
+            5 | 6 => {
+                line.push_str(" ; clonefrom ; swap ; sizeall ; dump");
+                st.bump(clone_from_kind(n, n_saved));
+                n_saved = n;
+            }
+            _ => {
+                line.push_str(" ; restore ; sizeall ; dump");
+                st.bump(clone_from_kind(n_saved, n));
+                n = n_saved;
+            }
+        }
+    }
+    line.push_str(" ; sizeall ; checkadj ; dump ; swap ; sizeall ; parall ; dump");
+    st.bump("rollback_histories");
     line
 }
 
@@ -869,14 +1125,30 @@ fn adversarial(n: usize, seed: u64) -> Vec<String> {
         format!("{n} ; randmix {seed} {} ; dump ; parall ; sizeall ; dump ; randmix {} {n} ; dump", 3 * n, seed + 2),
         // binomial trees of size 4 / 8 attached below singletons and chains of binomial trees (what a broken size comparison gets wrong)
         format!("{n} ; binom 0 {h} ; chain {} {n} ; dump ; un {} 0 ; dump ; parall ; dump", h, n.saturating_sub(1)),
+        // snapshot, more unions, roll back onto the used structure (`clone_from`), continue with both copies; then a copy onto a
+        // used structure with FEWER elements
+        format!(
+            "{n} ; binom 0 {h} ; clone ; chain 0 {n} ; sizeall ; restore ; dump ; sizeall ; binom {h} {n} ; dump ; un 0 {h} ; dump ; swap ; reset {h} ; \
+             starr 0 0 {h} ; swap ; clonefrom ; swap ; sizeall ; parall ; dump ; feed 0 ; swap ; sizeall ; dump"
+        ),
+        // a copy onto a used structure with MORE elements, then both continue
+        format!(
+            "{n} ; star 0 0 {n} ; clone ; reset {h} ; rand {seed} {h} ; dump ; clonefrom ; swap ; sizeall ; dump ; chain 0 {h} ; feed 0 ; dump ; swap ; \
+             randmix {} {n} ; sizeall ; dump",
+            seed + 3
+        ),
     ]
 }
 
 fn gen(args: &Args, emit: &mut dyn FnMut(String), st: &mut Stats) {
     let thorough = args.tier == "thorough";
+    // `--profile debug` (second build profile: debug assertions on, no optimisation): the same streams without the bulk
+    // sample and without the 10^5+ sizes
+    let debug = args.extra.get("profile").map_or(false, |p| p == "debug");
     let mut rng = SplitMix64::new(args.seed ^ 0xC05);
     // (1) exhaustive small scope: union-only histories (every order and orientation) + full observation suffix
-    let plan: Vec<(usize, usize)> = if thorough {
+    // the debug build keeps the quick-size exhaustive plans in both tiers (the release build carries the bulk)
+    let plan: Vec<(usize, usize)> = if thorough && !debug {
         vec![(2, 3), (3, 1), (3, 2), (3, 3), (3, 4), (3, 5), (3, 6), (4, 1), (4, 2), (4, 3), (4, 4), (4, 5), (5, 3), (5, 4), (6, 3), (7, 2), (12, 1)]
     } else {
         vec![(2, 3), (3, 1), (3, 2), (3, 3), (3, 4), (4, 2), (4, 3), (5, 2), (12, 1)]
@@ -889,7 +1161,7 @@ fn gen(args: &Args, emit: &mut dyn FnMut(String), st: &mut Stats) {
         let alpha = un_alphabet(5);
         let k = alpha.len();
         let total = k.pow(5);
-        let stride = if thorough { 7 } else { 97 };
+        let stride = if debug { 9973 } else if thorough { 7 } else { 97 };
         let mut code0 = (args.seed % stride as u64) as usize;
         while code0 < total {
             let mut code = code0;
@@ -906,20 +1178,26 @@ fn gen(args: &Args, emit: &mut dyn FnMut(String), st: &mut Stats) {
         }
     }
     // (2) exhaustive small scope over the whole op alphabet (un, par, size, check, reset grow/shrink, clone, swap)
-    let mixed: Vec<(usize, usize)> = if thorough { vec![(2, 4), (3, 3), (3, 4)] } else { vec![(2, 3), (3, 3)] };
+    let mixed: Vec<(usize, usize)> = if thorough && !debug { vec![(2, 4), (3, 3), (3, 4)] } else { vec![(2, 3), (3, 3)] };
     for (n, d) in mixed {
         exhaustive(n, &mixed_alphabet(n), d, "exhaustive_mixed_histories", emit, st);
     }
     // (3) random histories, n <= 12, up to 200 ops
-    let count = if thorough { 30_000 } else { 1_500 };
+    let count = if thorough && !debug { 30_000 } else if thorough { 6_000 } else { 1_500 };
     for _ in 0..count {
         let l = random_history(&mut rng, st, 200);
+        emit(l);
+    }
+    // (3b) snapshot / roll-back histories: clone, clone_from in both directions onto used structures of other sizes
+    let count = if thorough && !debug { 20_000 } else if thorough { 5_000 } else { 1_200 };
+    for _ in 0..count {
+        let l = rollback_history(&mut rng, st);
         emit(l);
     }
     // (4) adversarial orders, small and medium sizes (every n up to 40 so that every position relative to powers of two occurs)
     let mut sizes: Vec<usize> = (2..=40).collect();
     sizes.extend([63, 64, 65, 100, 127, 128, 129, 1000, 1024]);
-    if thorough {
+    if thorough && !debug {
         sizes.extend([4095, 4096, 4097, 65536, 100_000]);
     }
     for n in sizes {
@@ -929,21 +1207,41 @@ fn gen(args: &Args, emit: &mut dyn FnMut(String), st: &mut Stats) {
         }
     }
     // (5) thorough: 10^6 elements (and 2^20, where the binomial bound is tight)
-    if thorough {
-        for n in [1_000_000usize, 1 << 20] {
-            for l in adversarial(n, rng.next_u64() >> 1) {
+    if thorough && !debug {
+        for n in [1_000_000usize, 1 << 20, 1 << 21] {
+            for (k, l) in adversarial(n, rng.next_u64() >> 1).into_iter().enumerate() {
+                // at 2^21 the two random scripts are left out (random orders give shallow forests; 30 s for nothing new)
+                if n > 1 << 20 && (k == 5 || k == 6) {
+                    continue;
+                }
                 emit(l);
                 st.bump("adversarial_1e6");
             }
         }
     }
+    // (5a) element counts past 10^6: the binomial worst case is the only order that reaches depth log2 n, and depth 21 needs
+    //      2^21 elements (a path of 21 non-root vertices below the root).  One such history in quick (about 4 s for both sides),
+    //      2^22 .. 2^24 in thorough; lookups go to the deepest vertex first, before anything compresses its path.
+    if !debug {
+        let bigs: Vec<usize> = if thorough { vec![1 << 21, 1 << 22, 1 << 23, 1 << 24] } else { vec![1 << 21] };
+        for n in bigs {
+            emit(format!("{n} ; binom 0 {n} ; par 0 ; size 1 ; check 2 {} ; feed 4 ; dump", n - 1));
+            st.bump("binomial_past_1e6");
+        }
+    }
     // (5b) the no-stack-exhaustion clause without reading the forest: the same adversarial orders, and lookups of OLD
     //      elements after unions through non-roots, in a child process with a 256 KiB stack (log-depth recursion needs a few
     //      hundred bytes; a chain of 10^5 frames does not fit).  Independent of the Debug layout.
-    let ss_sizes: Vec<usize> = if thorough { vec![100_000, 1_000_000] } else { vec![100_000] };
+    let ss_sizes: Vec<usize> = if debug {
+        vec![]
+    } else if thorough {
+        vec![100_000, 1_000_000, 1 << 21]
+    } else {
+        vec![100_000]
+    };
     for n in ss_sizes {
         let h = n / 2;
-        for l in [
+        for (k, l) in [
             format!("{n} ss ; un 0 1 ; star 0 2 {n} ; par 1 ; parall ; sizeall ; dump"),
             format!("{n} ss ; un 1 0 ; starr 0 2 {n} ; par 1 ; parall ; dump"),
             format!("{n} ss ; chain 0 {n} ; par 0 ; parall ; dump"),
@@ -951,7 +1249,14 @@ fn gen(args: &Args, emit: &mut dyn FnMut(String), st: &mut Stats) {
             format!("{n} ss ; binom 0 {n} ; par 0 ; checkadj ; parall ; dump"),
             format!("{n} ss ; binom 0 {h} ; chain {h} {n} ; un {} 0 ; par 0 ; par {h} ; parall ; dump", n - 1),
             format!("{n} ss ; randmix {} {n} ; parall ; dump", rng.next_u64() >> 1),
-        ] {
+        ]
+        .into_iter()
+        .enumerate()
+        {
+            // past 10^6 only the binomial orders (the depth is what grows with n)
+            if n > 1_000_000 && !(k == 4 || k == 5) {
+                continue;
+            }
             emit(l);
             st.bump("small_stack_runs");
         }
@@ -967,6 +1272,9 @@ fn gen(args: &Args, emit: &mut dyn FnMut(String), st: &mut Stats) {
         "0 ; par 0",
         "2 ; chain 0 5",
         "3 ; un 0 1 ; clone ; reset 1 ; swap ; un 0 2 ; swap ; par 2",
+        "3 ; un 0 1 ; reset 8 ; un 7 0 ; restore ; size 7",
+        "3 ; reset 1 ; clonefrom ; swap ; feed 2",
+        "4 ; feed 4",
     ] {
         emit(l.to_string());
         st.bump("out_of_domain");
